@@ -23,8 +23,14 @@ MODULES = ['NoteSeqVerif.Props.C06P']
 EXE = 'drv_c06p'
 THEOREMS = [
     ('NoteSeqVerif.Props.C06P', n) for n in [
-        'NSV.C06P.roundtrip_NotePerformance', 'NSV.C06P.extract_canonical_NotePerf',
+        # the property, at full strength, for the three performance types
+        'NSV.C06P.roundtrip_Performance', 'NSV.C06P.roundtrip_MetricPerformance', 'NSV.C06P.roundtrip_NotePerformance',
+        # canonical = what extraction itself produces
+        'NSV.C06P.extract_canonical_Perf', 'NSV.C06P.extract_canonical_NotePerf',
+        # strict canonical lists are normal forms (any storage order of the rendered notes); corollaries
+        'NSV.C06P.roundtrip_Performance_normal', 'NSV.C06P.roundtrip_MetricPerformance_normal',
         'NSV.C06P.roundtrip_Performance_partial', 'NSV.C06P.roundtrip_MetricPerformance_partial',
+        'NSV.C06P.canonicalFull_of_canonical',
     ]
 ]
 TRUSTED = [
@@ -692,7 +698,7 @@ def run_streams(chk):
     if cases:
         run_cases(chk, 'perf-corpus', cases)
     rng = chk.subrng('perf-corr')
-    n = chk.n(1500, 40000)
+    n = chk.n(5000, 40000)
     cases = []
     sampled = 0
     for i in range(n):
@@ -716,7 +722,7 @@ def run_streams(chk):
                 sampled += 1
     rng = chk.subrng('perf-malformed')
     cases = []
-    for i in range(chk.n(500, 10000)):
+    for i in range(chk.n(1500, 10000)):
         hist = set()
         k = rng.random()
         if k < 0.4:
@@ -740,6 +746,22 @@ def run(chk):
 
 def replay(chk, obj):
     _libs()
+    if 'correspondence_disagreements' in obj or str(obj.get('kind', '')).startswith('no-failing'):
+        # a record of model/implementation disagreements (no failing input): re-run those cases through both sides
+        n = 0
+        for d in obj.get('correspondence_disagreements', []):
+            c = (d.get('input') or {}).get('case')
+            if not c or not str(c.get('kind', '')).split(':')[-1] in ('perf', 'mperf', 'nperf'):
+                continue
+            c = dict(c, kind=c['kind'].split(':')[-1])
+            l1, l2, _ = run_impl(c)
+            flags = canon_flags(c)
+            impl = '%d %d | %s | %s' % (int(flags[0]), int(flags[1]), l1, l2)
+            model = chk.driver(EXE, [req_line(c)])[0]
+            print('case %s: model and implementation %s' % (c['kind'], 'AGREE now' if impl == model else 'still DISAGREE'))
+            n += 1
+        print('%d recorded disagreement(s) re-run; no failing input of the property is recorded in this file' % n)
+        return 0
     c = dict(obj)
     c['kind'] = c['kind'].split(':')[-1]
     print('replay C06 (performance half):', c['kind'], {k: v for k, v in c.items() if k not in ('events', 'kind')})
